@@ -6,6 +6,7 @@
                   {"t":"model","dump":pv[,"json":wireJ]} {"t":"leaf"[,"json":wireJ]}        -/
 import AriadneModel.Driver.Wire
 import AriadneModel.Model.BaseClientTree
+import AriadneModel.Model.BaseClientHeap
 
 open Lean (Json)
 open Ariadne Ariadne.Wire Ariadne.BaseClient
@@ -66,6 +67,27 @@ def encRequest : Request → Json
       ("headers", match hs with | some h => encStrPairs h | none => .null), ("kwargs", encJPairs kw)]
   | .serializationError => Json.mkObj [("r", "error")]
 
+partial def encPV : PV → Json
+  | .none => Json.mkObj [("t", "none")]
+  | .unset => Json.mkObj [("t", "unset")]
+  | .bool b => Json.mkObj [("t", "bool"), ("v", b)]
+  | .num m e => Json.mkObj [("t", "num"), ("v", enc (.num m e))]
+  | .str s => Json.mkObj [("t", "str"), ("v", s)]
+  | .list xs => Json.mkObj [("t", "list"), ("v", .arr (xs.map encPV).toArray)]
+  | .dict kvs => Json.mkObj [("t", "dict"), ("v", .arr (kvs.map fun (k, v) => Json.arr #[.str k, encPV v]).toArray)]
+  | .upload i => Json.mkObj [("t", "upload"), ("id", (i : Nat))]
+  | .model d j => Json.mkObj ([("t", Json.str "model"), ("dump", encPV d)] ++ (match j with | some j => [("json", enc j)] | none => []))
+  | .leaf j => Json.mkObj ([("t", Json.str "leaf")] ++ (match j with | some j => [("json", enc j)] | none => []))
+
+def encHeap (h : Heap) : Json :=
+  Json.mkObj [("hdrs", .arr (h.hdrs.map encStrPairs).toArray),
+    ("vars", .arr (h.vars.map fun kvs => Json.arr (kvs.map fun (k, v) => Json.arr #[.str k, encPV v]).toArray).toArray)]
+
+def optNat (j : Json) (k : String) : Except String (Option Nat) := do
+  match ← field j k with
+  | .null => pure none
+  | v => pure (some (← v.getNat?))
+
 def decKind : String → Except String Kind
   | "sync" => pure .sync
   | "async" => pure .async
@@ -95,6 +117,42 @@ def handle (j : Json) : Except String Json := do
       ("valid", validCall call),
       ("trigContentTypeCase", trigContentTypeCase call),
       ("trigUploadInModelBelowDict", trigUploadInModelBelowDict call)])
+  | "sequence" =>
+    -- calls one after the other, each on its own client, all naming their `variables` / `headers=`
+    -- objects by address in ONE heap: per step the request, the heap and the client afterwards
+    let hdrs ← (← (← field j "hdrs").getArr?).toList.mapM decStrPairs
+    let vars ← (← (← field j "vars").getArr?).toList.mapM decPV.decKvs
+    let heap : Heap := { hdrs := hdrs, vars := vars }
+    let steps ← (← (← field j "steps").getArr?).toList.mapM fun sj => do
+      let kind ← decKind (← fieldStr sj "kind")
+      let cl : Client := { kind := kind, url := ← fieldStr sj "url", tracer := ← fieldBool sj "tracer" }
+      let opName ← match ← field sj "opName" with
+        | .null => pure none
+        | v => do pure (some (← v.getStr?))
+      let c : HCall := { query := ← fieldStr sj "query", opName := opName, variables := ← optNat sj "variables",
+                         headers := ← optNat sj "headers", kwargs := ← decJPairs (← field sj "kwargs") }
+      pure (cl, c)
+    let mut out : Array Json := #[]
+    for k in [0:steps.length] do
+      let pre := steps.take k
+      let hBefore := (runSeqH heap pre).1
+      match steps[k]? with
+      | none => pure ()
+      | some (cl, c) =>
+        let flags := match hBefore.call? c with
+          | some call => [("valid", Json.bool (validCall call)),
+                          ("trigContentTypeCase", Json.bool (trigContentTypeCase call)),
+                          ("trigUploadInModelBelowDict", Json.bool (trigUploadInModelBelowDict call))]
+          | none => []
+        match executeH cl hBefore c with
+        | .ok cl' h' r =>
+          out := out.push (Json.mkObj ([("request", encRequest r), ("client_unchanged", Json.bool (decide (cl' = cl))),
+            ("heap", encHeap h')] ++ flags))
+        | .illFormed => out := out.push (Json.mkObj [("request", .null), ("illFormed", true)])
+    -- the same steps through the model's own sequencing function
+    let whole := runSeqH heap steps
+    pure (Json.mkObj [("steps", .arr out), ("final_heap", encHeap whole.1),
+      ("requests", .arr (whole.2.map fun r => match r with | some r => encRequest r | none => .null).toArray)])
   | _ => throw s!"unknown op {op}"
 
 def main : IO Unit := Ariadne.Wire.loop handle
